@@ -62,6 +62,8 @@ func checkC15(r *Report) {
 	importKeyRule(r, p, "C15.g/IMPORT-KEY-VERSION")
 	nDF := importDepthFirstRule(r, p, "C15.h/IMPORT-DEPTH-FIRST")
 	r.floor("C15.h/IMPORT-DEPTH-FIRST", "refills of the work list of imports", nDF, 1)
+	nMA := mergeAppendOwnRule(r, p, "C15.i/MERGE-APPEND-OWN")
+	r.floor("C15.i/MERGE-APPEND-OWN", "appends stored into the receiver by methods of package maven", nMA, 3)
 }
 
 // declaredWinsRule: when ProcessDependencies injects dependency management
